@@ -271,6 +271,21 @@ func Scenarios() []Scenario {
 		}
 		return []func() string{op}, nil
 	}})
+	// S8: the first addresses of a freshly opened object file asked about by three goroutines at once: the
+	// relocation base is computed once, and nobody may translate an address before it is known
+	out = append(out, Scenario{Name: "S8/first-objaddr", Setup: func() ([]func() string, func() string) {
+		o, err := binutils.VerifC20OpenELF(0x5000000, 0x2000)
+		op := func(addr uint64) func() string {
+			return func() string {
+				if err != nil {
+					return "open: " + err.Error()
+				}
+				v, e := o.ObjAddr(addr)
+				return fmt.Sprintf("%#x %v", v, e)
+			}
+		}
+		return []func() string{op(0x5000c04), op(0x5001010), op(0x5000000)}, nil
+	}})
 	out = append(out, webScenarios()...)
 	return out
 }
